@@ -1044,3 +1044,18 @@ func iteReader(c bool, a, b io.Reader) io.Reader {
 //@   ensures [data]  result == nil ==> len(m[len(m)-1].Payload) == inEnd(src)-old(inPos(src)) && forall(0, len(m[len(m)-1].Payload), func(k int) bool { return m[len(m)-1].Payload[k] == inByte(src, old(inPos(src))+k) })
 //@   ensures [add]   result == nil ==> len(m) == old(len(m))+1 && m[len(m)-1].OpCode == hdr.OpCode && (fresh(m[len(m)-1].Payload) || len(m[len(m)-1].Payload) == 0)
 //@   ensures [keep]  result != nil ==> len(m) == old(len(m))
+
+// ReadFrom (C06, C16): bytes are taken from src in order, counted exactly, buffered or flushed as
+// fragments; a clean end of src is not an error and leaves the message open (dirty).
+//@ func Writer.ReadFrom
+//@   props C06 C16
+//@   requires [ready] writerReady(w) && src != nil && streamOK(src) && len(w.raw) <= 1<<40
+//@   ensures  [count] n == int64(inPos(src)-old(inPos(src))) && n >= 0
+//@   ensures  [eof]   err == nil ==> w.dirty && ((inPos(src) == inEnd(src) && inErr(src) == io.EOF) || w.err == io.EOF)
+//@   ensures  [inv]   invWriter(w) && w.dest == old(w.dest) && w.state == old(w.state) && w.op == old(w.op)
+//@   loop 1 invariant [inv] writerReady(w) && streamOK(src) && w.dest == old(w.dest) && w.state == old(w.state) && w.op == old(w.op) && 0 <= len(w.raw) && len(w.raw) <= 1<<40
+//@   loop 1 invariant [count] n == int64(inPos(src)-old(inPos(src))) && inPos(src) >= old(inPos(src))
+//@   loop 1 invariant [err] err != nil ==> err == io.ErrNoProgress || (inPos(src) == inEnd(src) && err == inErr(src)) || err == w.err
+//@   loop 2 invariant [inv] writerReady(w) && streamOK(src) && w.dest == old(w.dest) && w.state == old(w.state) && w.op == old(w.op) && 0 <= len(w.raw) && len(w.raw) <= 1<<40 && len(w.buf)-w.n > 0
+//@   loop 2 invariant [count] n == int64(inPos(src)-old(inPos(src))) && inPos(src) >= old(inPos(src)) && 0 <= nr && nr <= 100
+//@   loop 2 decreases 100 - nr
